@@ -789,3 +789,13 @@ func init() {
 		return &Value{T: env.e.W.reflectType(), L: []*Term{UF("rt_elem", SInt, a[0].One())}}
 	}
 }
+
+func init() {
+	// rvkind(v), rvisnil(v): reflect.ValueOf(v).Kind() / .IsNil() as the engine models them
+	specFuncs["rvkind"] = func(env *SpecEnv, a []*Value) *Value {
+		return &Value{T: tInt, L: []*Term{UF(sanitize("(reflect.Value).Kind")+"_00", SBV(64), UF("rv_of", SRV, a[0].One()))}}
+	}
+	specFuncs["rvisnil"] = func(env *SpecEnv, a []*Value) *Value {
+		return &Value{T: tBool, L: []*Term{UF(sanitize("(reflect.Value).IsNil")+"_00", SBool, UF("rv_of", SRV, a[0].One()))}}
+	}
+}
